@@ -3,7 +3,7 @@ import Qx.Xml.Tree
 import Qx.Xml.Canon
 import Qx.Xml.Parse
 /-!
-Driver ops for the XML text layer (`xml-…` lines of the C01 driver), TAB-separated fields:
+Driver ops for the XML text layer (`xml-…` lines of the C01 driver): command word, one blank (or TAB), argument:
 
   xml-esc-text     <hex>    → hex of `escText`
   xml-esc-attr     <hex>    → hex of `escAttr`
@@ -96,22 +96,32 @@ def onStr (w : String) (f : Str → String) : String :=
   | some s => f s
   | none => "bad-hex"
 
+/-- command word and argument of an op line: split at the first blank or TAB (the check's line format
+`C <op>\t<observation>` cuts at the first TAB, so harnesses separate command and argument by a blank) -/
+def splitOp (line : String) : String × String :=
+  let l := if line.endsWith "\n" then (line.dropEnd 1).toString else line
+  let cs := l.toList
+  let isSep := fun (c : Char) => c = ' ' || c = '\t'
+  (String.ofList (cs.takeWhile fun c => !isSep c), String.ofList ((cs.dropWhile fun c => !isSep c).drop 1))
+
 /-- handle one op line; `none` when the line is not an xml-layer op -/
 def step (line : String) : Option String :=
-  match fields line with
-  | ["xml-esc-text", w] => some (onStr w fun s => hexOf (escText s))
-  | ["xml-esc-attr", w] => some (onStr w fun s => hexOf (escAttr s))
-  | ["xml-unesc", w] => some (onStr w fun s => hexOf (unesc s))
-  | ["xml-render", t] =>
-    some (match decodeTree t with
+  let ca := splitOp line
+  let w := ca.2
+  match ca.1 with
+  | "xml-esc-text" => some (onStr w fun s => hexOf (escText s))
+  | "xml-esc-attr" => some (onStr w fun s => hexOf (escAttr s))
+  | "xml-unesc" => some (onStr w fun s => hexOf (unesc s))
+  | "xml-render" =>
+    some (match decodeTree w with
       | some t => hexOf (render t)
       | none => "bad-tree")
-  | ["xml-render-parse", t] =>
-    some (match decodeTree t with
+  | "xml-render-parse" =>
+    some (match decodeTree w with
       | some t => showTree ((parse (render t)).map qdomView)
       | none => "bad-tree")
-  | ["xml-parse", w] => some (onStr w fun s => showTree ((parse s).map qdomView))
-  | ["xml-parse-plain", w] => some (onStr w fun s => showTree (parse s))
+  | "xml-parse" => some (onStr w fun s => showTree ((parse s).map qdomView))
+  | "xml-parse-plain" => some (onStr w fun s => showTree (parse s))
   | _ => none
 
 end Qx.Driver.XmlOps
